@@ -74,18 +74,37 @@ type faultPlan struct {
 	disabled bool
 	// ambiguous: a COMMIT was executed and the connection dropped before the reply (current step)
 	ambiguous bool
+	// logsRefusal: the RPC faults of this case are JSON-RPC error members on the eth_getLogs element of requests
+	// that span more than one block (the usual "range too large / too many results" refusal of providers)
+	logsRefusal bool
+	refusals    int
 }
 
 func (fp *faultPlan) rpcHook(info *simnode.ReqInfo) simnode.Action {
 	fp.mu.Lock()
 	defer fp.mu.Unlock()
 	act := simnode.Action{ElemErr: -1}
+	if fp.logsRefusal {
+		if fp.disabled || info.Poller || fp.rpcLeft == 0 {
+			return act
+		}
+		for i, cl := range info.Calls {
+			if cl.Method == "eth_getLogs" && cl.Filter != nil && cl.Filter.To > cl.Filter.From && fp.r.Chance(1, 2) {
+				fp.rpcLeft--
+				fp.refusals++
+				act.Fail, act.ElemErr = simnode.FailRPCError, i
+				fp.kinds["rpc:logs-refused"] = true
+				return act
+			}
+		}
+		return act
+	}
 	if fp.disabled || info.Poller || fp.rpcLeft == 0 || !fp.r.Chance(1, 6) {
 		return act
 	}
 	fp.rpcLeft--
 	act.Fail = []simnode.FailKind{simnode.FailRPCError, simnode.FailHTTP, simnode.FailCut, simnode.FailTruncate, simnode.FailGarbage}[fp.r.Intn(5)]
-	if act.Fail == simnode.FailRPCError && len(info.Calls) > 1 && fp.r.Bool() {
+	if act.Fail == simnode.FailRPCError && len(info.Calls) > 1 && fp.r.Chance(3, 4) {
 		act.ElemErr = fp.r.Intn(len(info.Calls))
 	}
 	act.Status = []int{500, 502, 429, 404}[fp.r.Intn(4)]
@@ -175,6 +194,9 @@ func c01Run(c *vk.Case) {
 	fp := &faultPlan{r: r.Fork(), kinds: map[string]bool{}}
 	if c.Index%2 == 1 {
 		fp.rpcLeft, fp.sqlLeft = r.Intn(4), r.Intn(3)
+		if c.Index%8 == 3 && d.Mode() == model.ModeLog {
+			fp.logsRefusal, fp.rpcLeft = true, r.Range(1, 3)
+		}
 	}
 	node.SetHook(fp.rpcHook)
 	env.PG.SetFaultHook(fp.sqlHook)
